@@ -351,3 +351,57 @@ Proof.
     exists d. split; [left; reflexivity|]. inversion Ha as [|? ? [Hd1 _] _]; subst. left. exact Hd1.
   - exfalso. exact (lex_fuel T text Hl).
 Qed.
+
+(* ---------------------------------------------------------------- lexer-class diagnostics carry the configuration path *)
+Definition wfd (d : diag) : Prop := is_lexer_msg (d_msg d) = true -> d_path d = P_conf.
+Definition paths_ok (c : cfg) : Prop := Forall wfd (c_diags c).
+
+Lemma paths_ok_same c c' : c_diags c' = c_diags c -> paths_ok c -> paths_ok c'.
+Proof. unfold paths_ok. intros ->. auto. Qed.
+Lemma paths_ok_add c d : wfd d -> paths_ok c -> paths_ok (add_diag c d).
+Proof. intros Hd H. constructor; assumption. Qed.
+Lemma wfd_lexerr l m : wfd (lexerr l m).
+Proof. intros _. reflexivity. Qed.
+Lemma wfd_nonlexer d : is_lexer_msg (d_msg d) = false -> wfd d.
+Proof. intros H H1. congruence. Qed.
+
+Lemma all_lexer_paths dg : all_lexer dg -> Forall wfd dg.
+Proof. intros H. eapply Forall_impl; [|exact H]. intros d [_ Hp] _. exact Hp. Qed.
+
+Lemma config_parse_paths_ok E T text : paths_ok (cfg_of (config_parse E T text)).
+Proof.
+  unfold config_parse.
+  pose proof (lex_go_diags (S (length text)) T 1%Z text [] [] (Forall_nil _)) as Hd. fold (lex T text) in Hd.
+  destruct (lex T text) as [toks eof dg|dg|].
+  - unfold parse_tokens.
+    pose proof (st_parse_loop paths_ok wfd wfd_lexerr wfd_nonlexer paths_ok_same paths_ok_add E T eof (S (length toks))
+                  (with_diags (cfg_init T) dg) toks false (all_lexer_paths _ Hd)) as H1.
+    destruct (parse_loop E T eof (S (length toks)) (with_diags (cfg_init T) dg) toks false) as [c1 error]. simpl in H1.
+    destruct (lexer_get_error c1); [exact H1|].
+    pose proof (st_validate paths_ok wfd wfd_lexerr paths_ok_add (t_grammar T) c1 H1) as H2.
+    destruct (validate (t_grammar T) c1) as [c2 verr]. simpl in H2. destruct verr; [exact H2|]. destruct error; exact H2.
+  - simpl. apply all_lexer_paths. exact (proj1 Hd).
+  - simpl. constructor.
+Qed.
+
+(* a diagnostic that names the configuration file, or the path-less one of interpolate.c *)
+Definition names_file (d : diag) : Prop := is_lexer_msg (d_msg d) = true /\ d_path d = P_conf.
+Definition pathless_interp (d : diag) : Prop := d_path d = P_none /\ exists e, d_msg d = M_interp e.
+
+Theorem reject_diagnostic E T text c :
+  wf_tokens T = true -> config_parse E T text = Rejected c ->
+  exists d, In d (c_diags c) /\ (names_file d \/ pathless_interp d).
+Proof.
+  intros Hwf H. destruct (reject_good E T text c Hwf H) as [d [Hin [Hl|Hi]]].
+  - exists d. split; [exact Hin|]. left. split; [exact Hl|].
+    pose proof (config_parse_paths_ok E T text) as Hp. rewrite H in Hp. simpl in Hp.
+    unfold paths_ok in Hp. rewrite Forall_forall in Hp. exact (Hp d Hin Hl).
+  - exists d. split; [exact Hin|]. right. exact Hi.
+Qed.
+
+(* the command exits 1 and prints nothing when the configuration is rejected *)
+Lemma robsd_config_rejected E T text vars stdin c :
+  config_parse E T text = Rejected c ->
+  r_exit (robsd_config E T text vars stdin) = 1 /\ r_stdout (robsd_config E T text vars stdin) = []
+  /\ r_diags (robsd_config E T text vars stdin) = rev (c_diags c).
+Proof. intros H. unfold robsd_config. rewrite H. auto. Qed.
